@@ -16,11 +16,11 @@ Definition golden_bytes : list byte := txt
 Example golden_vector : rfc_bytes golden_bundle = golden_bytes.
 Proof. vm_compute. reflexivity. Qed.
 
-(* RFC 9173 Appendix A.1.1.1: primary block [7, 0, 0, [2,[1,2]], [2,[2,1]], [2,[2,1]], [0,0], 1000000] *)
+(* RFC 9173 Appendix A.1.1.1: primary block [7, 0, 0, [2,[1,2]], [2,[2,1]], [2,[2,1]], [0,40], 1000000] *)
 Definition rfc9173_primary : primary :=
-  mkprimary 7 0 CrcNo (Ipn 2 1 2) (Ipn 2 2 1) (Ipn 2 2 1) 0 0 1000000 0 0.
+  mkprimary 7 0 CrcNo (Ipn 2 1 2) (Ipn 2 2 1) (Ipn 2 2 1) 0 40 1000000 0 0.
 Example rfc9173_primary_vector : ser (primary_item rfc9173_primary)
-  = txt [136;7;0;0;130;2;130;1;2;130;2;130;2;1;130;2;130;2;1;130;0;0;26;0;15;66;64].
+  = txt [136;7;0;0;130;2;130;1;2;130;2;130;2;1;130;2;130;2;1;130;0;24;40;26;0;15;66;64].
 Proof. vm_compute. reflexivity. Qed.
 (* RFC 9173 Appendix A.1.1.2: payload block [1, 1, 0, 0, h'526561647920...'] ("Ready to generate a 32-byte payload") *)
 Definition rfc9173_payload_text : list byte :=
